@@ -133,6 +133,16 @@ CHECKS["C05"] = (
     "estimate_directional_distribution gives each batch element the single-spectrum result times pi/180 for shapes "
     "(nf,), (nt,nf), (nt,nx,nf); as_frequency_direction_spectrum integrates back to e(f) and carries time/position/depth.",
     "DESIGN.md#c05", "That Newton/LM iterates stay finite and converge is NOT claimed.")
+CHECKS["C06"] = (
+    "mem2_jacobian[m,n] equals the derivative of moment_constraints[m] with respect to lambda_n (own symbolic "
+    "differentiation of the lifted terms; exp as positive atoms; cross-multiplied rational identity decided by z3) on "
+    "every argmin path for uniform grids N in {3,4,6} (thorough 8) and for FULLY SYMBOLIC twiddle factors and "
+    "increments at N=3 (thorough 4), and is symmetric; solve_cholesky solves M x = r for symbolic symmetric 2x2 "
+    "(thorough 3x3) systems; the first guess, the multiplier inner products and the MEM2 distribution are equivariant "
+    "under rotation by every k bins and under mirroring on N in {4,6} (exact algebraic cos/sin); on the converged exit "
+    "the solver returns the distribution of an iterate whose recomputed moments are within atol of the input, and "
+    "concrete witnesses with residual >= atol are reported as not converged.", "DESIGN.md#c06",
+    "Convergence/fidelity for von-Mises mixtures, Newton-vs-scipy agreement and the MEM discretisation bound are NOT claimed.")
 NA = {}
 
 ALL = [f"C{i:02d}" for i in range(1, 21)]
